@@ -180,6 +180,38 @@ func (r *runner) noteReset(pre *blobpool.VerifDump, old, nb *blockSpec, deep boo
 	if deep {
 		r.deepBefore = true
 	}
+	// C42-gap-after-stale-prefix: what recheck saw for a transactor (pooled + reinjected from the limbo) had a
+	// nonce below the new state nonce, none equal to it, and the survivors all lie above it
+	if !deep {
+		for a := 0; a < r.naccts; a++ {
+			have := post.Index[addrs[a]]
+			next := nb.nonces[a]
+			if len(have) == 0 || have[0].Nonce <= next {
+				continue
+			}
+			below, at := false, false
+			see := func(n uint64) {
+				below = below || n < next
+				at = at || n == next
+			}
+			for _, m := range pre.Index[addrs[a]] {
+				see(m.Nonce)
+			}
+			for tid := range disc {
+				if _, re := incl[tid]; re {
+					continue
+				}
+				if sp := r.specs[tid]; sp != nil && int(sp.from) == a {
+					if _, ok := preL[tid]; ok {
+						see(sp.nonce)
+					}
+				}
+			}
+			if below && !at {
+				r.gapAcct[a] = true
+			}
+		}
+	}
 	if len(post.Index) > 0 && len(pre.Index) > 0 && (len(disc) > 0 || len(incl) > 0) {
 		r.tags["reorg-with-pool"] = true
 	}
